@@ -1990,6 +1990,8 @@ def analyse(chk):
                                                why='a strided view of the Gaunt / harmonic tables handed to C as a bare pointer makes the l=1 terms read the wrong rows'))
     chk.guard(lambda c_: core.include_findings(c_, 'C10', files=['ciderpress/lib/mod_cider/sph_harm.c', 'ciderpress/lib/mod_cider/conv_interpolation.c', 'ciderpress/lib/mod_cider/fast_sdmx.c'], rules=None,
                                                why='schedule-dependent harmonics/kernels break every invariance'))
+    chk.guard(lambda c_: core.include_findings(c_, 'C19', files=['ciderpress/dft/grids_indexer.py'], rules=['owner-map'],
+                                               why='a grid point attributed to the wrong atom breaks the on-site/off-site split, which depends on atom order'))
 
 
 def mutants(tree):
